@@ -62,7 +62,7 @@ def run(F, chk):
     # ---------------- R-C06-c --------------------------------------------------
     rc = chk.rule("R-C06-c", "T12", "the key pairing backends across the two states contains id and address", floor=2)
     n = 0
-    for p in fns:
+    for p in sorted(fns):
         b = F.body(p)
         for bi, si, s in b.stmts():
             rv = s.get("rv")
@@ -79,7 +79,8 @@ def run(F, chk):
                     continue   # the (key, value) pair wrapping the key tuple
                 n += 1
                 ordn = n
-                key = "%s|backend key tuple" % p
+                # keyed by rank among the key-building sites (closure numbers shift when an unrelated closure is added)
+                key = "%s|backend key tuple#%d" % (STATE + "::diff", n - 1)
                 if (BACKEND, "address") in flds:
                     rc.ok(key, b.where(bi, si), "key reads backend_id and address")
                 else:
